@@ -1748,6 +1748,15 @@ class Engine:
             if self.feasible(z3.ULT(x, y)):
                 raise Unsupported('bit-vector int subtraction may go negative')
             return VBV(z3.simplify(x - y))
+        if isinstance(op, ast.RShift):
+            cy = conc_int(self.as_int(b)) if not isinstance(b, VBV) else conc_int(b.t)
+            if cy is not None and 0 <= cy:
+                return VBV(z3.simplify(z3.LShR(x, z3.BitVecVal(min(cy, w), w)))) if cy < w else VBV(z3.BitVecVal(0, w))
+        if isinstance(op, ast.LShift) and isinstance(a, VBV):
+            cy = conc_int(self.as_int(b)) if not isinstance(b, VBV) else conc_int(b.t)
+            if cy is not None and 0 <= cy <= 512:
+                # python ints do not overflow: the result is cy bits wider
+                return VBV(z3.simplify(z3.Concat(a.t, z3.BitVecVal(0, cy)))) if cy > 0 else a
         raise Unsupported('arithmetic %s on bit-vector ints' % type(op).__name__)
 
     # ---- subscripts
